@@ -246,7 +246,7 @@ def _trace_inputs(trace, func, params):
     """Counterexample values of the function under contract: scalar parameters (assigned as
     `<p>_wrapper` by the DFCC wrapper call), pre-state fields published by the verif_obs_*
     observers in the requires clauses, and named scalar locals of the harness."""
-    vals = {}
+    params_v, obs_v, vals = {}, {}, {}
     for st in trace:
         if st.get("stepType") != "assignment":
             continue
@@ -257,13 +257,18 @@ def _trace_inputs(trace, func, params):
         fn = st.get("sourceLocation", {}).get("function")
         if st.get("assignmentType") == "actual-parameter":
             if lhs.endswith("_wrapper") and lhs[:-8] in params:
-                vals.setdefault(lhs[:-8], v)
+                params_v.setdefault(lhs[:-8], v)
             elif lhs.startswith("obs_"):
-                vals.setdefault(lhs[4:], v)
+                obs_v.setdefault(lhs[4:], v)
             elif lhs in params and fn == "harness":
-                vals.setdefault(lhs, v)
-        elif fn == "harness" and re.match(r"^(in_|arg_)\w+$", lhs):
-            vals[lhs[lhs.index("_") + 1:]] = v
+                params_v.setdefault(lhs, v)
+        elif fn == "harness" and "$" not in lhs and "[" not in lhs and "." not in lhs and \
+                not lhs.startswith("__") and not lhs.startswith("verif_nd"):
+            vals[lhs] = v      # named scalar locals of harness-allocated harnesses (last value wins)
+    vals.update(obs_v)
+    for k, v in params_v.items():
+        # a parameter that shares its name with an observed field (hasher_push_cv's chunk_counter)
+        vals[k + "_arg" if k in obs_v else k] = v
     return vals
 
 
@@ -610,8 +615,202 @@ def run_unit(name, tier="quick", keep=False, sanity=False):
             common.rm_rf(scratch)
 
 
+# --------------------------------------------------------------------------------------------
+# replay: re-run a counterexample against the real C code under ASan/UBSan
+# --------------------------------------------------------------------------------------------
+
+REPLAY_MAX_ALLOC = 1 << 28   # do not try to malloc more than 256 MiB for a replayed length
+
+_DRIVER_PRELUDE = r'''/* generated by verif/lib/cbmc_backend.py replay(): arguments taken from cbmc's counterexample;
+ * buffers are malloc'ed with exactly the size the contract requires (ASan red zones catch any
+ * overrun), postconditions of the contract are plain C asserts */
+#include <assert.h>
+#include <stdio.h>
+#include <stdlib.h>
+#include <string.h>
+#include "blake3_dispatch.c"
+#include "blake3_portable.c"
+#include "blake3.c"
+#define IMPLIES(a, b) (!(a) || (b))
+#define CHECK(c) do { if (!(c)) { fprintf(stderr, "REPLAY: postcondition violated: %s\n", #c); abort(); } } while (0)
+#define CS_LEN(s) (64 * (size_t)(s)->blocks_compressed + (size_t)(s)->buf_len)
+#define POPCNT(x) ((size_t)__builtin_popcountll((unsigned long long)(x)))
+#define CS_WF(s) ((s)->buf_len <= 64 && CS_LEN(s) <= 1024 && IMPLIES((s)->buf_len == 0, (s)->blocks_compressed == 0))
+#define H_T(h) ((h)->chunk.chunk_counter)
+#define HASHER_WF(h) (CS_WF(&(h)->chunk) && H_T(h) < ((uint64_t)1 << 54) && (h)->cv_stack_len <= 55 && \
+   (CS_LEN(&(h)->chunk) > 0 ? (size_t)(h)->cv_stack_len == POPCNT(H_T(h)) \
+     : (H_T(h) == 0 ? (h)->cv_stack_len == 0 \
+        : ((h)->cv_stack_len >= 2 && (size_t)(h)->cv_stack_len >= POPCNT(H_T(h)) && (size_t)(h)->cv_stack_len <= POPCNT(H_T(h) - 1) + 1))))
+static void *xalloc(size_t n) {          /* exactly n bytes, filled with a pattern */
+  unsigned char *p = malloc(n);
+  if (n && !p) { fprintf(stderr, "REPLAY: cannot allocate %zu bytes\n", n); exit(0); }
+  for (size_t i = 0; i < n; i++) p[i] = (unsigned char)(i * 7 + 1);
+  return p;
+}
+static blake3_chunk_state *mk_cs(unsigned buf_len, unsigned bc, uint64_t ctr, unsigned flags) {
+  blake3_chunk_state *s = xalloc(sizeof *s);
+  s->buf_len = (uint8_t)buf_len; s->blocks_compressed = (uint8_t)bc; s->chunk_counter = ctr; s->flags = (uint8_t)flags;
+  for (unsigned i = buf_len; i < 64; i++) s->buf[i] = 0;
+  return s;
+}
+static blake3_hasher *mk_hasher(unsigned buf_len, unsigned bc, uint64_t ctr, unsigned flags, unsigned stack_len) {
+  blake3_hasher *h = xalloc(sizeof *h);
+  blake3_chunk_state *s = mk_cs(buf_len, bc, ctr, flags);
+  h->chunk = *s; free(s);
+  h->cv_stack_len = (uint8_t)stack_len;
+  return h;
+}
+static output_t *mk_output(unsigned block_len, unsigned flags, uint64_t counter) {
+  output_t *o = xalloc(sizeof *o);
+  o->block_len = (uint8_t)block_len; o->flags = (uint8_t)flags; o->counter = counter;
+  return o;
+}
+'''
+
+_CS = "{buf_len}u, {blocks_compressed}u, {chunk_counter}ull, {chunk_flags}u"
+_HS = _CS + ", {cv_stack_len}u"
+_OUT = "{block_len}u, {out_flags}u, {out_counter}ull"
+
+# function -> (sizes that must be allocatable, C body of main).  {name} = counterexample value (0 if absent)
+_REPLAY = {
+    "highest_one": ([], "uint64_t x = {x}ull; unsigned r = highest_one(x); CHECK(r < 64 && (x >> r) == 1);"),
+    "popcnt": ([], "uint64_t x = {x}ull; unsigned r = popcnt(x), n = 0; for (int i = 0; i < 64; i++) n += (x >> i) & 1; CHECK(r == n);"),
+    "round_down_to_power_of_2": ([], "uint64_t x = {x}ull; uint64_t r = round_down_to_power_of_2(x); CHECK(r != 0 && (r & (r - 1)) == 0); CHECK(IMPLIES(x == 0, r == 1)); CHECK(IMPLIES(x != 0, r <= x && (x >> 1) < r));"),
+    "left_subtree_len": ([], "size_t n = {input_len}ull; size_t r = left_subtree_len(n); CHECK(r % 1024 == 0 && r != 0 && ((r / 1024) & (r / 1024 - 1)) == 0); CHECK(r < n); CHECK(n - r <= r);"),
+    "chunk_state_len": ([], "blake3_chunk_state *s = mk_cs(" + _CS + "); CHECK(chunk_state_len(s) == CS_LEN(s));"),
+    "chunk_state_maybe_start_flag": ([], "blake3_chunk_state *s = mk_cs(" + _CS + "); CHECK(chunk_state_maybe_start_flag(s) == (s->blocks_compressed == 0 ? CHUNK_START : 0));"),
+    "chunk_state_output": ([], "blake3_chunk_state *s = mk_cs(" + _CS + "); output_t o = chunk_state_output(s);"
+                           " CHECK(o.flags == (uint8_t)(s->flags | (s->blocks_compressed == 0 ? CHUNK_START : 0) | CHUNK_END));"
+                           " CHECK(o.counter == s->chunk_counter); CHECK(o.block_len == s->buf_len);"
+                           " CHECK(memcmp(o.block, s->buf, 64) == 0); CHECK(memcmp(o.input_cv, s->cv, 32) == 0);"),
+    "parent_output": ([], "uint8_t *block = xalloc(64); uint32_t *key = xalloc(32); output_t o = parent_output(block, key, {flags}u);"
+                      " CHECK(o.flags == (uint8_t)({flags}u | PARENT)); CHECK(o.counter == 0); CHECK(o.block_len == 64);"
+                      " CHECK(memcmp(o.block, block, 64) == 0); CHECK(memcmp(o.input_cv, key, 32) == 0);"),
+    "make_output": ([], "uint8_t *block = xalloc(64); uint32_t *cv = xalloc(32); output_t o = make_output(cv, block, {block_len}u, {counter}ull, {flags}u);"
+                    " CHECK(o.flags == (uint8_t){flags}u && o.counter == {counter}ull && o.block_len == (uint8_t){block_len}u);"
+                    " CHECK(memcmp(o.block, block, 64) == 0); CHECK(memcmp(o.input_cv, cv, 32) == 0);"),
+    "chunk_state_init": ([], "blake3_chunk_state *s = xalloc(sizeof *s); uint32_t *key = xalloc(32); chunk_state_init(s, key, {flags}u);"
+                         " CHECK(memcmp(s->cv, key, 32) == 0 && s->chunk_counter == 0 && s->buf_len == 0 && s->blocks_compressed == 0 && s->flags == (uint8_t){flags}u);"
+                         " for (int i = 0; i < 64; i++) CHECK(s->buf[i] == 0);"),
+    "chunk_state_reset": ([], "blake3_hasher *h = mk_hasher(" + _CS + ", 0); uint8_t fl = h->chunk.flags; chunk_state_reset(&h->chunk, h->key, {chunk_counter}ull);"
+                          " CHECK(memcmp(h->chunk.cv, h->key, 32) == 0 && h->chunk.buf_len == 0 && h->chunk.blocks_compressed == 0 && h->chunk.flags == fl);"
+                          " for (int i = 0; i < 64; i++) CHECK(h->chunk.buf[i] == 0);"),
+    "chunk_state_fill_buf": (["input_len"],
+                             "blake3_chunk_state *s = mk_cs(" + _CS + "); size_t n = {input_len}ull; uint8_t *in = xalloc(n);"
+                             " blake3_chunk_state before = *s; size_t take = chunk_state_fill_buf(s, in, n);"
+                             " size_t want = n < (size_t)(64 - before.buf_len) ? n : (size_t)(64 - before.buf_len);"
+                             " CHECK(take == want); CHECK((size_t)s->buf_len == (size_t)before.buf_len + take);"
+                             " for (size_t i = 0; i < 64; i++) CHECK(s->buf[i] == ((i >= before.buf_len && i < (size_t)before.buf_len + take) ? in[i - before.buf_len] : before.buf[i]));"
+                             " CHECK(memcmp(s->cv, before.cv, 32) == 0 && s->chunk_counter == before.chunk_counter && s->blocks_compressed == before.blocks_compressed && s->flags == before.flags);"),
+    "chunk_state_update": (["input_len"],
+                           "blake3_chunk_state *s = mk_cs(" + _CS + "); size_t n = {input_len}ull; uint8_t *in = xalloc(n);"
+                           " size_t before = CS_LEN(s); uint64_t ctr = s->chunk_counter; uint8_t fl = s->flags; chunk_state_update(s, in, n);"
+                           " CHECK(CS_LEN(s) == before + n); CHECK(CS_WF(s)); CHECK(IMPLIES(n > 0, s->buf_len > 0)); CHECK(s->chunk_counter == ctr && s->flags == fl);"),
+    "output_chaining_value": ([], "output_t *o = mk_output(" + _OUT + "); uint8_t *cv = xalloc(32); output_chaining_value(o, cv);"),
+    "output_root_bytes": (["out_len"], "output_t *o = mk_output(" + _OUT + "); size_t n = {out_len}ull; uint8_t *out = xalloc(n); output_t before = *o;"
+                          " output_root_bytes(o, {seek}ull, out, n); CHECK(memcmp(o, &before, sizeof before) == 0);"),
+    "compress_chunks_parallel": (["input_len"], "size_t n = {input_len}ull; uint8_t *in = xalloc(n); uint32_t *key = xalloc(32); uint8_t *out = xalloc(32 * ((n + 1023) / 1024));"
+                                 " size_t r = compress_chunks_parallel(in, n, key, {chunk_counter}ull, {flags}u, out); CHECK(r == (n + 1023) / 1024);"),
+    "compress_parents_parallel": ([], "size_t n = {num_chaining_values}ull; uint8_t *in = xalloc(32 * n); uint32_t *key = xalloc(32); uint8_t *out = xalloc(32 * ((n + 1) / 2));"
+                                  " size_t r = compress_parents_parallel(in, n, key, {flags}u, out); CHECK(r == (n + 1) / 2);"),
+    "blake3_compress_subtree_wide": (["input_len"], "size_t n = {input_len}ull; uint8_t *in = xalloc(n); uint32_t *key = xalloc(32); uint8_t *out = xalloc(32 * MAX_SIMD_DEGREE_OR_2);"
+                                     " size_t r = blake3_compress_subtree_wide(in, n, key, {chunk_counter}ull, {flags}u, out, 0);"
+                                     " CHECK(1 <= r && r <= MAX_SIMD_DEGREE_OR_2); CHECK(IMPLIES(n <= 1024, r == 1)); CHECK(IMPLIES(n > 1024, r >= 2));"),
+    "compress_subtree_to_parent_node": (["input_len"], "size_t n = {input_len}ull; uint8_t *in = xalloc(n); uint32_t *key = xalloc(32); uint8_t *out = xalloc(64);"
+                                        " compress_subtree_to_parent_node(in, n, key, {chunk_counter}ull, {flags}u, out, 0);"),
+    "hasher_init_base": ([], "blake3_hasher *h = xalloc(sizeof *h); uint32_t *key = xalloc(32); hasher_init_base(h, key, {flags}u);"
+                         " CHECK(memcmp(h->key, key, 32) == 0 && memcmp(h->chunk.cv, key, 32) == 0 && h->chunk.flags == (uint8_t){flags}u && h->cv_stack_len == 0); CHECK(HASHER_WF(h));"),
+    "blake3_hasher_init": ([], "blake3_hasher *h = xalloc(sizeof *h); blake3_hasher_init(h); CHECK(memcmp(h->key, IV, 32) == 0 && h->chunk.flags == 0 && h->cv_stack_len == 0); CHECK(HASHER_WF(h));"),
+    "blake3_hasher_init_keyed": ([], "blake3_hasher *h = xalloc(sizeof *h); uint8_t *key = xalloc(32); blake3_hasher_init_keyed(h, key);"
+                                 " CHECK(h->chunk.flags == KEYED_HASH && h->cv_stack_len == 0); CHECK(HASHER_WF(h)); for (int i = 0; i < 8; i++) CHECK(h->key[i] == load32(key + 4 * i));"),
+    "blake3_hasher_init_derive_key_raw": (["context_len"], "blake3_hasher *h = xalloc(sizeof *h); size_t n = {context_len}ull; uint8_t *c = xalloc(n); blake3_hasher_init_derive_key_raw(h, c, n);"
+                                          " CHECK(h->chunk.flags == DERIVE_KEY_MATERIAL && h->cv_stack_len == 0); CHECK(HASHER_WF(h));"),
+    "blake3_hasher_init_derive_key": (["n"], "blake3_hasher *h = xalloc(sizeof *h); size_t n = {n}ull; char *c = xalloc(n + 1); for (size_t i = 0; i < n; i++) c[i] = 'a'; c[n] = 0;"
+                                      " blake3_hasher_init_derive_key(h, c); CHECK(h->chunk.flags == DERIVE_KEY_MATERIAL && h->cv_stack_len == 0); CHECK(HASHER_WF(h));"),
+    "hasher_merge_cv_stack": ([], "blake3_hasher *h = mk_hasher(" + _HS + "); uint64_t t = {total_len}ull; size_t before = h->cv_stack_len; blake3_chunk_state cs = h->chunk; hasher_merge_cv_stack(h, t);"
+                              " CHECK((size_t)h->cv_stack_len == (before > POPCNT(t) ? POPCNT(t) : before)); CHECK(memcmp(&cs, &h->chunk, sizeof cs) == 0);"),
+    "hasher_push_cv": ([], "blake3_hasher *h = mk_hasher(" + _HS + "); uint64_t t = {chunk_counter_arg}ull; size_t before = h->cv_stack_len; uint8_t *cv = xalloc(32); hasher_push_cv(h, cv, t);"
+                       " CHECK((size_t)h->cv_stack_len == (before > POPCNT(t) ? POPCNT(t) : before) + 1);"),
+    "blake3_hasher_update": (["input_len"], "blake3_hasher *h = mk_hasher(" + _HS + "); size_t n = {input_len}ull; uint8_t *in = xalloc(n);"
+                             " uint64_t before = H_T(h) * 1024 + CS_LEN(&h->chunk); uint32_t key[8]; memcpy(key, h->key, 32); uint8_t fl = h->chunk.flags; blake3_hasher snap = *h;"
+                             " blake3_hasher_update(h, in, n); CHECK(HASHER_WF(h)); CHECK(H_T(h) * 1024 + CS_LEN(&h->chunk) == before + n);"
+                             " CHECK(memcmp(key, h->key, 32) == 0 && h->chunk.flags == fl); CHECK(IMPLIES(n == 0, memcmp(&snap, h, sizeof snap) == 0));"),
+    "blake3_hasher_finalize_seek": (["out_len"], "blake3_hasher *h = mk_hasher(" + _HS + "); size_t n = {out_len}ull; uint8_t *out = xalloc(n); blake3_hasher snap = *h;"
+                                    " blake3_hasher_finalize_seek(h, {seek}ull, out, n); CHECK(memcmp(&snap, h, sizeof snap) == 0);"),
+    "blake3_hasher_finalize": (["out_len"], "blake3_hasher *h = mk_hasher(" + _HS + "); size_t n = {out_len}ull; uint8_t *out = xalloc(n); blake3_hasher snap = *h;"
+                               " blake3_hasher_finalize(h, out, n); CHECK(memcmp(&snap, h, sizeof snap) == 0);"),
+    "blake3_hasher_reset": ([], "blake3_hasher *h = mk_hasher(" + _HS + "); uint32_t key[8]; memcpy(key, h->key, 32); uint8_t fl = h->chunk.flags; blake3_hasher_reset(h);"
+                            " CHECK(memcmp(key, h->key, 32) == 0 && memcmp(h->chunk.cv, key, 32) == 0 && h->chunk.flags == fl);"
+                            " CHECK(h->chunk.chunk_counter == 0 && h->chunk.buf_len == 0 && h->chunk.blocks_compressed == 0 && h->cv_stack_len == 0);"
+                            " for (int i = 0; i < 64; i++) CHECK(h->chunk.buf[i] == 0); CHECK(HASHER_WF(h));"),
+    "blake3_xof_many": (["outblocks64"], "output_t *o = mk_output({block_len}u, {flags}u, {counter}ull); size_t n = {outblocks}ull; uint8_t *out = xalloc(64 * n);"
+                        " blake3_xof_many(o->input_cv, o->block, o->block_len, o->counter, o->flags, out, n);"),
+    "blake3_compress_in_place": ([], "blake3_chunk_state *s = mk_cs(0, 0, 0, 0); blake3_compress_in_place(s->cv, s->buf, {block_len}u, {counter}ull, {flags}u);"),
+    "blake3_compress_in_place_portable": ([], "blake3_chunk_state *s = mk_cs(0, 0, 0, 0); blake3_compress_in_place_portable(s->cv, s->buf, {block_len}u, {counter}ull, {flags}u);"),
+    "blake3_compress_xof": ([], "output_t *o = mk_output({block_len}u, {flags}u, {counter}ull); uint8_t *out = xalloc(64); blake3_compress_xof(o->input_cv, o->block, o->block_len, o->counter, o->flags, out);"),
+    "blake3_compress_xof_portable": ([], "output_t *o = mk_output({block_len}u, {flags}u, {counter}ull); uint8_t *out = xalloc(64); blake3_compress_xof_portable(o->input_cv, o->block, o->block_len, o->counter, o->flags, out);"),
+    "hash_one_portable": (["blocks64"], "size_t b = {blocks}ull; uint8_t *in = xalloc(64 * b); uint32_t *key = xalloc(32); uint8_t *out = xalloc(32);"
+                          " hash_one_portable(in, b, key, {counter}ull, {flags}u, {flags_start}u, {flags_end}u, out);"),
+    "blake3_hash_many": (["rows"], "size_t n = {num_inputs}ull, b = {blocks}ull; const uint8_t *rows[16]; for (size_t i = 0; i < n && i < 16; i++) rows[i] = xalloc(64 * b);"
+                         " uint32_t *key = xalloc(32); uint8_t *out = xalloc(32 * n); blake3_hash_many(rows, n, b, key, {counter}ull, {increment_counter}, {flags}u, {flags_start}u, {flags_end}u, out);"),
+    "blake3_hash_many_portable": (["rows"], "size_t n = {num_inputs}ull, b = {blocks}ull; const uint8_t *rows[16]; for (size_t i = 0; i < n && i < 16; i++) rows[i] = xalloc(64 * b);"
+                                  " uint32_t *key = xalloc(32); uint8_t *out = xalloc(32 * n); blake3_hash_many_portable(rows, n, b, key, {counter}ull, {increment_counter}, {flags}u, {flags_start}u, {flags_end}u, out);"),
+}
+_REPLAY["blake3_hasher_update_base"] = (_REPLAY["blake3_hasher_update"][0],
+                                        _REPLAY["blake3_hasher_update"][1].replace("blake3_hasher_update(h, in, n)", "blake3_hasher_update_base(h, in, n, 0)"))
+
+
+class _Zero(dict):
+    def __missing__(self, k):
+        return 0
+
+
 def replay(failed, repo=None):
-    return None
+    """Re-run the counterexample of a failed obligation on the real C sources under
+    AddressSanitizer + UBSan.  Returns {"reproduced", "driver", "output"} or None when the
+    obligation carries no usable inputs / the function has no replay recipe."""
+    repo = repo or common.REPO
+    inputs = failed.get("inputs")
+    func = failed.get("unit_function") or failed.get("function")
+    if not inputs or func not in _REPLAY:
+        return None
+    sizes, body = _REPLAY[func]
+    vals = _Zero({k: int(v) for k, v in inputs.items() if isinstance(v, int)})
+    # the contract's own parameter may share a name with an observed field (hasher_push_cv)
+    if func == "hasher_push_cv" and "chunk_counter" in inputs:
+        pass
+    need = 0
+    for s in sizes:
+        if s == "outblocks64":
+            need = max(need, 64 * vals["outblocks"])
+        elif s == "blocks64":
+            need = max(need, 64 * vals["blocks"])
+        elif s == "rows":
+            need = max(need, 64 * vals["blocks"] * max(1, vals["num_inputs"]))
+        else:
+            need = max(need, vals[s])
+    if need > REPLAY_MAX_ALLOC:
+        return {"reproduced": False, "driver": None,
+                "output": "not replayed: the counterexample needs a %d-byte buffer (> %d)" % (need, REPLAY_MAX_ALLOC)}
+    driver = _DRIVER_PRELUDE + "int main(void) {\n  " + body.format_map(vals).replace("; ", ";\n  ") + \
+        "\n  puts(\"REPLAY: no violation observed\");\n  return 0;\n}\n"
+    scratch = common.scratch_dir("cbmc_replay")
+    try:
+        src = os.path.join(scratch, "driver.c")
+        exe = os.path.join(scratch, "driver")
+        common.write(src, driver)
+        cmd = ["clang", "-g", "-O1", "-fsanitize=address,undefined", "-fno-sanitize-recover=all"] + PORTABLE_DEFS + \
+              ["-I" + os.path.join(repo, "c"), "-Wno-everything", src, "-o", exe]
+        rc, out, err, _ = common.run(cmd, timeout=180, mem_gb=None)
+        if rc != 0:
+            return {"reproduced": False, "driver": driver, "output": "driver did not compile: " + (err + out)[-1500:]}
+        rc, out, err, _ = common.run([exe], timeout=120, mem_gb=None,
+                                     env={"ASAN_OPTIONS": "detect_leaks=0:abort_on_error=0", "UBSAN_OPTIONS": "print_stacktrace=1"})
+        text = (out + err).replace(scratch, "<scratch>")
+        return {"reproduced": rc != 0, "driver": driver, "output": text[-3000:], "cmd": _fmt(cmd).replace(scratch, "<scratch>")}
+    finally:
+        common.rm_rf(scratch)
+
 
 
 # --------------------------------------------------------------------------------------------
